@@ -10,7 +10,7 @@
    waits for process-wide quiescence: a call that has not returned then is parked for good). Not modelled:
    Go scheduler fairness, net.Conn deadlines (a Write blocked on a silent peer ends only with the connection). *)
 From Coq Require Import NArith List Bool.
-From LLRP Require Import Client.Types Client.Model Client.ModelX Client.InvC08 Client.InvC09 Client.C09Proofs Client.Handoff Client.C09Flood Client.C09Api Client.C09CloseResp.
+From LLRP Require Import Client.Types Client.Model Client.ModelX Client.InvC08 Client.InvC09 Client.C09Proofs Client.Handoff Client.C09Flood Client.C09Api Client.C09CloseResp Client.AwaitLock.
 Import ListNotations.
 Open Scope N_scope.
 
@@ -314,3 +314,34 @@ Example C09_example_close_connection_without_waiting :
   caller_result s 3 = Some RSent /\ ackq s = [77] /\ caller_phase s 4 = Some (Queued (rq 3 0 0)) /\
   close_sent s = true /\ saw_close s = true /\ reader s = RWaitDone /\ errs s = [].
 Proof. vm_compute. repeat split; reflexivity. Qed.
+
+(* ---- round-7 addendum: the await-map lock while the read loop sits in a half-received frame (Client/AwaitLock.v) ----
+   [Cancel c] / [SeeClosed c] / [WAccept c] are atomic events of the LTS, enabled whatever the read loop is doing
+   (C09_cancel_waiting_caller, C09_no_caller_stuck). In reader.go each of them takes c.awaitMu; so does passToHandler, for the lookup
+   and the delete only — it lets go BEFORE it reads the payload. The atomic events are faithful only under that discipline.
+   AwaitLock.v is the lock on its own (read loop / a leaving caller / the write loop registering a request), with "the read loop keeps
+   the lock to the end of the frame" as a flag. The code (hold = false), over every schedule — in particular with the reader gone
+   quiet in the middle of a payload: a caller whose context was cancelled (or who saw done) returns, and the write loop registers and
+   writes the next request, by INTERNAL steps alone (nothing from the peer, nothing from the environment): *)
+Theorem C09_leaving_caller_needs_nothing_from_the_peer : forall evs,
+  let s := lrun false evs in
+  l_caller s = LCWant ->
+  forallb internal (caller_plan s) = true /\ l_caller (lrun_from false s (caller_plan s)) = LCLeft.
+Proof. intros evs s H. split; [apply plans_internal|exact (leaving_caller_returns evs H)]. Qed.
+Print Assumptions C09_leaving_caller_needs_nothing_from_the_peer.
+
+Theorem C09_write_loop_registers_without_the_peer : forall evs,
+  let s := lrun false evs in
+  l_writer s = LWWant ->
+  forallb internal (writer_plan s) = true /\ l_writer (lrun_from false s (writer_plan s)) = LWWritten.
+Proof. intros evs s H. split; [apply plans_internal|exact (write_loop_registers evs H)]. Qed.
+Print Assumptions C09_write_loop_registers_without_the_peer.
+
+(* with the lock held across the payload the statement is false: header read, lookup done, the reader goes quiet; a context is cancelled
+   and a request is queued — and no internal event changes anything *)
+Theorem C09_lock_held_across_payload_refuted :
+  exists evs, let s := lrun true evs in
+    l_reader s = LRPayload /\ l_caller s = LCWant /\ l_writer s = LWWant /\
+    forall e, internal e = true -> lstep true s e = s.
+Proof. exact lock_held_across_payload_refuted. Qed.
+Print Assumptions C09_lock_held_across_payload_refuted.
